@@ -425,11 +425,13 @@ def mk_secret(s):
             value, alg, length = (rsa['pub'] if t == 'PUBLIC_KEY' else rsa['priv']), ALG.RSA, 1024
         if s.get('length_ok') is False:
             length += 8
-        kw = dict(cryptographic_algorithm=alg, cryptographic_length=length, key_format_type=fmt, key_value=value, key_wrapping_data=wrap)
+        kw = dict(cryptographic_algorithm=alg, cryptographic_length=length, key_format_type=fmt, key_value=value, key_wrapping_data=None)
         if t == 'SPLIT_KEY':
             kw.update(split_key_parts=3, key_part_identifier=1, split_key_threshold=2, split_key_method=enums.SplitKeyMethod.XOR,
                       prime_field_size=None)
         sec = kdrv.core_secret(OT[t], **kw)
+        if wrap is not None:
+            sec.key_block.key_wrapping_data = wrap
         return sec
     if t == 'CERTIFICATE':
         return kdrv.core_secret(OT[t], certificate_type=enums.CertificateType[s.get('cert_type', 'X_509')], certificate_value=b'\x30\x82\x01' + b'\x44' * 20)
